@@ -93,7 +93,7 @@ def midpoint_rule(ctx, rule, erule, path, kind):
         return
     loop = byte_loops[0]
     paths = sym_paths(fv, loop["body"])
-    item = ("item", paths[0].view.term(loop["iter"])) if paths else ("none",)
+    items = (("item", paths[0].view.term(loop["iter"])), ("item", fv.term(loop["iter"]))) if paths else (("none",),)
     markers = [b for lid, b in fv.binds.items() if b["mut"] and b["ty"] == "(f64, f64)"]
     mids = [lid for lid, b in fv.binds.items() if b["mut"] and b["ty"] == "(f64, f64)"]
     if len(mids) != 1:
@@ -118,12 +118,12 @@ def midpoint_rule(ctx, rule, erule, path, kind):
         if t[0] == "iflet" and pol:
             corner = ("variant", "Some", 0, t[2])
     key_ok = corner is not None and corner[3][0] == "call" and corner[3][1].endswith("HashMap::get") \
-        and corner[3][2] == SF("cgr_map") and corner[3][3] == item
+        and corner[3][2] == SF("cgr_map") and corner[3][3] in items
     ctx.check(rule, "%s:key" % who, key_ok, "corner = cgr_map[byte]",
               "the corner is looked up as `%s`, expected self.cgr_map.get(<the byte itself>)" % (show(corner[3]) if corner else "?"),
               line_of(loop))
     def coord(i):
-        return ("bin", "/", mk_bin("+", ("field", corner, str(i)), ("field", mv, str(i))), L(2.0))
+        return ("bin", "/", mk_bin("+", ("proj", i, corner), ("proj", i, mv)), L(2.0))
     okm = corner is not None and new == ("tup", coord(0), coord(1))
     ctx.check(rule, "%s:midpoint" % who, okm, "marker' = ((corner.0+marker.0)/2, (corner.1+marker.1)/2)",
               "marker update is `%s`; expected the coordinate-wise midpoint ((corner.0 + marker.0)/2, (corner.1 + marker.1)/2)"
@@ -150,7 +150,7 @@ def midpoint_rule(ctx, rule, erule, path, kind):
     it = fv.term(loop["iter"])
     if kind == "whole":
         p0 = ("param", param_index(fv, "seq"))
-        ok_it = it == ("call", "core::slice::iter", p0) or (it[0] == "call" and it[1].endswith("::iter") and it[2] == p0)
+        ok_it = it == p0 or (it[0] == "call" and it[1].split("::")[-1] in ("iter", "bytes", "into_iter") and it[2] == p0)
         ctx.check(rule, "%s:all_bases" % who, ok_it, "iterates every byte of the sequence in order",
                   "the byte loop iterates `%s`, expected seq.iter()" % show(it), line_of(loop))
         res = fv.term(fv.body.get("expr")) if fv.body.get("expr") else ("none",)
@@ -182,10 +182,10 @@ def point_text(ctx, rule, fv, who, template, nargs):
     if ok:
         args = fm[0][1][2]
         if nargs == 2:
-            ok = args == (("field", ("cparam", 0), "0"), ("field", ("cparam", 0), "1"))
+            ok = args == (("proj", 0, ("cparam", 0)), ("proj", 1, ("cparam", 0)))
         else:
             v = ("cparam", 0)
-            ok = args == (("field", ("field", v, "0"), "0"), ("field", ("field", v, "0"), "1"), ("field", v, "1"))
+            ok = args == (("proj", 0, ("proj", 0, v)), ("proj", 1, ("proj", 0, v)), ("proj", 1, v))
     ctx.check(rule, "%s:point_text" % who, ok, "point text %s of the components in order" % template,
               "point text is `%s` with %s" % (fmt_template(fm[0][1]) if fm else "?", [show(a) for a in fm[0][1][2]] if fm else "?"),
               line_of(fm[0][0]) if fm else fv.fn["sp"])
